@@ -1732,6 +1732,12 @@ def _abs(it, a, k):
         return abs(v)
     if isinstance(v, AbsVal):
         return it.call_ext("np.abs", [v], {})
+    if isinstance(v, Rat) and any(a == I for a in v.atoms()):
+        # modulus of a Gaussian-rational normal form: sqrt(re^2 + im^2)
+        from .extlib import imag_rat, real_rat
+        from .poly import sqrt as _sqrt
+
+        return _sqrt(real_rat(v, it) ** 2 + imag_rat(v, it) ** 2)
     return apply_fn("abs", v)
 
 
